@@ -150,6 +150,17 @@ class SigmaListModifier(SigmaModifier[T, R]):
 
 
 ### Modifier Implementations ###
+def _regex_open_or_anchored_at_end(regexp_str: str) -> bool:
+    """Regular expression ends with the wildcard '.*' or the anchor '$'. An escaped dot or dollar sign
+    (preceded by an odd number of backslashes) is a literal character and doesn't count."""
+    for suffix in (".*", "$"):
+        if regexp_str.endswith(suffix):
+            head = regexp_str[: -len(suffix)]
+            if (len(head) - len(head.rstrip("\\"))) % 2 == 0:
+                return True
+    return False
+
+
 class SigmaContainsModifier(
     SigmaValueModifier[
         SigmaString | SigmaRegularExpression | SigmaFieldReference,
@@ -170,7 +181,7 @@ class SigmaContainsModifier(
             regexp_str = str(val.regexp)
             if regexp_str[:2] != ".*" and regexp_str[:1] != "^":
                 val.regexp = SigmaString(".") + SpecialChars.WILDCARD_MULTI + val.regexp
-            if regexp_str[-2:] != ".*" and regexp_str[-1:] != "$":
+            if not _regex_open_or_anchored_at_end(regexp_str):
                 val.regexp += SigmaString(".") + SpecialChars.WILDCARD_MULTI
             val.compile()
         elif isinstance(val, SigmaFieldReference):
@@ -195,7 +206,7 @@ class SigmaStartswithModifier(
                 val += SpecialChars.WILDCARD_MULTI
         elif isinstance(val, SigmaRegularExpression):
             regexp_str = str(val.regexp)
-            if regexp_str[-2:] != ".*" and regexp_str[-1:] != "$":
+            if not _regex_open_or_anchored_at_end(regexp_str):
                 val.regexp += SigmaString(".") + SpecialChars.WILDCARD_MULTI
             val.compile()
         elif isinstance(val, SigmaFieldReference):
